@@ -105,6 +105,64 @@ Proof.
   - apply revision_items.
 Qed.
 
+(* ---------- every string: oversized numbers saturate (D3) ---------- *)
+(* Beyond 18 digits the table reading is extended the way the repaired code
+   reads them: a version component saturates at i64::MAX, a revision that does
+   not fit counts as 0.  With that reading the tokeniser follows the table for
+   EVERY string, not only for runs of at most 18 digits. *)
+Definition sat_item (it : item) : item :=
+  match it with
+  | IComp z => IComp (Z.min z i64max)
+  | IRev z => IRev (if (z <=? i64max)%Z then z else 0)
+  | x => x
+  end.
+Lemma lex1_spec1_sat s :
+  option_map (fun p => (sat_item (fst p), snd p)) (spec1 s) = option_map (fun tn => (tok_item (fst tn), snd tn)) (lex1 s).
+Proof.
+  destruct s as [|c r]; [reflexivity|]. unfold lex1, spec1, lex1_body.
+  set (s := c :: r) in *.
+  destruct (is_digit c) eqn:Dc.
+  - assert (fst (span_digits s) <> []) as Hne.
+    { unfold s. cbn [span_digits]. rewrite Dc. destruct (span_digits r). cbn. discriminate. }
+    destruct (fst (span_digits s)) as [|d ds] eqn:E; [congruence|]. reflexivity.
+  - assert (fst (span_digits s) = []) as ->.
+    { unfold s. cbn [span_digits]. rewrite Dc. reflexivity. }
+    destruct ((c =? 46) || (c =? 95))%N; [reflexivity|].
+    destruct (prefix_ci m_nb s).
+    { cbn [option_map fst snd tok_item sat_item]. f_equal. f_equal. f_equal.
+      destruct (fst (span_digits (skipn 2 s))) as [|d ds] eqn:E; reflexivity. }
+    unfold modifiers. cbn [find fst].
+    destruct (prefix_ci m_alpha s); [reflexivity|].
+    destruct (prefix_ci m_beta s); [reflexivity|].
+    destruct (prefix_ci m_pre s); [reflexivity|].
+    destruct (prefix_ci m_rc s); [reflexivity|].
+    destruct (prefix_ci m_pl s); [reflexivity|].
+    destruct (is_alpha c); reflexivity.
+Qed.
+Lemma tokens_spec_items_sat : forall f s, (length s < f)%nat ->
+  exists ts, tokens f s = Some ts /\ map sat_item (spec_items f s) = map tok_item ts.
+Proof.
+  induction f as [|f IH]; intros s L; [lia|]. cbn [tokens spec_items].
+  pose proof (lex1_spec1_sat s) as E1.
+  destruct (lex1 s) as [[t n]|] eqn:E; cbn [option_map fst snd] in E1.
+  - destruct (spec1 s) as [[it n']|]; [|discriminate]. cbn [option_map fst snd] in E1. injection E1 as E2 ->.
+    pose proof (lex1_bounds _ _ _ E) as B.
+    destruct (IH (skipn n s)) as (ts & -> & Hs); [rewrite skipn_length; lia|].
+    exists (t :: ts). split; [reflexivity|]. cbn [map]. rewrite E2, Hs. reflexivity.
+  - destruct (spec1 s) as [[it n']|]; [discriminate|]. exists []. split; reflexivity.
+Qed.
+Definition mkv_table_sat (w : N -> Z) (s : str) : ver :=
+  let its := map sat_item (spec_items (S (length s)) s) in
+  mkver (flat_map (item_comps w) its) (items_rev its).
+Theorem tokens_follow_table_sat s : mkv s = mkv_table_sat code_weight s.
+Proof.
+  destruct (tokens_spec_items_sat (S (length s)) s ltac:(lia)) as (ts & T & I).
+  pose proof (mkv_opt_mkv s) as M. unfold mkv_opt in M. rewrite T in M. cbn in M. injection M as <-.
+  unfold mkv_table_sat, ver_of_toks. rewrite I. f_equal.
+  - clear. induction ts as [|t ts IHt]; cbn [flat_map map]; auto. rewrite comps_of_item, IHt. reflexivity.
+  - apply revision_items.
+Qed.
+
 (* ---------- code weight versus rank weight ---------- *)
 Definition valC (tv : bool * Z) : Z := if fst tv then snd tv + 96 else snd tv.
 Definition tag_ok (tv : bool * Z) : Prop := fst tv = true -> 1 <= snd tv.
